@@ -24,7 +24,7 @@ EXTENDS Terms
 Ops == {"Select", "Where"}
 Params == {"x", "y"}
 Breaks == {"none", "dot", "paren", "body", "close", "all"}
-Decos == {"none", "str", "cmt"}
+Decos == {"none", "str", "cmt", "fstr"}     \* fstr: an f-string whose literal part is one unbalanced bracket
 Wraps == {"fn", "if", "method", "comp", "cond", "nested", "with"}
 Extras == {"none", "before_same", "before_other", "after_same"}
 
